@@ -116,7 +116,7 @@ def strtypes_family(chk, tier):
         toks = sorted(DS.TOKENS)
         extra = {"".join(DS.TOKENS[chk.rng.choice(toks)] for _ in range(3)) for _ in range(1200)}
         corpus = sorted(set(corpus) | extra)
-    corpus = sorted(set(corpus) | set(DS.MC_STR.values()) | {"", "1_000", " 12 ", "0x10", "1e309", "-0", "٣.٥", "TrUe", "2020-02-30", "24:00",
+    corpus = sorted(set(corpus) | set(DS.MC_STR.values()) | {"", "1_000", " 12 ", "0x10", "1e309", "-0", "٣.٥", "TrUe", "2020-02-30", "24:00", "12", "10:30", "2018-01-02", "20180103", "2018-01-02T03:04:05", "1e3",
                                                                   "12:" + "9" * 320, "1234567890123456789012:00", "9" * 25 + "-01-02"})
     configs = DS.registries_from_tlc(chk, 2 if quick else 3)
     chk.exhaustive_parts.append("MC_StrTypes: every registry reachable by <=%d register/disable operations; MC_StrGrammar: every string of <=%d tokens"
@@ -141,15 +141,30 @@ def cli_family(pid, tier, chk):
     plans = DC.mc_cli(chk, 2, emit=True)
     chk.exhaustive_parts.append("MC_Cli: every plan with <=2 arguments (10 file kinds x -m/-l x 2 model names) x 4 output situations x 7 faults, "
                                 "single fault per plan (%d plans): safety, OnlyWriteAfterRender, termination" % len(plans))
-    if not quick:
+    if not quick and pid != "C16":
         DC.mc_cli(chk, 3, emit=False)
     if pid == "C16":
+        plans += DC.mc_cli(chk, 3, emit=True, clean=True)
+        chk.exhaustive_parts.append("MC_Cli (clean): every fault-free plan with <=3 arguments incl. the same file given twice")
         # C16 is about successful runs: the fault-free plans (every split of the samples over files / lookups / -m / -l)
         plans = [p for p in plans if p["fault"] == "none" and p["out"] != "unwritable"
                  and all(a["kind"] in ("list", "object", "lookup", "glob") for a in p["args"])]
     if quick:
         chk.rng.shuffle(plans)
-        plans = plans[:260]
+        if pid == "C16":
+            # half of the budget for the structurally interesting plans: a file given again under another model name,
+            # the same file with two lookups, three arguments
+            def score(p):
+                a = p["args"]
+                return sum(2 for x in a if x.get("alias") and x["model"] != a[0]["model"]) + sum(1 for x in a if x.get("alias") or x.get("share")) \
+                    + (1 if len(a) == 3 else 0) + (1 if len(a) == 3 and a[1]["model"] == a[0]["model"] and not a[1].get("alias") else 0)
+            ranked = sorted(plans, key=score, reverse=True)
+            top = [p for p in ranked if score(p) >= 4]
+            chk.rng.shuffle(top)
+            rest = [p for p in plans if p not in top[:130]]
+            plans = top[:130] + rest[:130]
+        else:
+            plans = plans[:260]
     traces, inputs = DC.cli_traces(chk, plans, fmts=("json", "json", "yaml", "ini"), sub_every=8 if quick else 3)
     chk.rules.append("%d TLC-enumerated CLI plans materialised as real files + argv and run through json_to_models.cli.main() with "
                      "recording wrappers (file loaders, validate, set_args, generate, generate_code, open, write, print)" % len(plans))
